@@ -14,6 +14,7 @@ import PyGqlModel.Lemmas.PrintLayExec
 import PyGqlModel.Lemmas.PrintMatchExec
 import PyGqlModel.Lemmas.PrintBlockLay
 import PyGqlModel.Lemmas.PrintStrip
+import PyGqlModel.Lemmas.PrintDocMatch
 import PyGqlModel.Props.C01_parse
 namespace PyGql.Props.C03
 open PyGql PyGql.Ast PyGql.Parse PyGql.Spec PyGql.Print PyGql.PrintLex PyGql.PrintMatch PyGql.PrintTokens PyGql.Lex
@@ -352,6 +353,53 @@ theorem print_stable_of_modulo (h : PrintParseModuloMembersStatement) :
   intro fl c x toks d h1 h2 h3 h4 h5
   obtain ⟨toks', a, b⟩ := h fl c x toks d h1 h2 h3 h4 h5
   exact ⟨toks', _, a, b, print_ignores_member_descriptions c d⟩
+
+/-! ### ALL documents, modulo member descriptions -/
+
+/-- `print_tokens_document`: for EVERY document — executable definitions, type-system definitions and extensions, mixed
+    — whose leaves are lexemes of their class (`okDefinition`), every indentation string over {space, tab}, descriptions
+    on: the printed document lexes to SOF, the token classes of its entries, EOF.  The classes of an entry are the
+    canonical yield of the definition WITHOUT member descriptions (finding R4: the printer does not print them), preceded by
+    the keyword `query` exactly where the R6 guard of `print_document` adds it. -/
+theorem print_tokens_document (c : Cfg) (hdesc : c.includeDescriptions = true) (hind : IndentOK c) (d : Document)
+    (hok : ∀ x ∈ d.definitions, okDefinition c.indent x) :
+    ∃ toks, lexAll (printDocument c d) = .ok (sofTok :: toks ++ [eofTok (printDocument c d).length]) ∧
+      classes toks = (entryPairs c none d.definitions).flatMap Prod.snd :=
+  lexAll_of_lexesTo (lexesTo_document c d (fun x hx => gfacts c hdesc hind x (hok x hx)))
+
+/-- `print_parse_document_modulo_members` (the statement of C03 modulo finding R4, for ALL documents):
+    `parse(print(d), no_location=True)` is `d` without the descriptions of fields, arguments, input fields and enum values
+    — for every well-formed, location-free document (operations, fragments, all 15 kinds of type-system definitions and
+    extensions, mixed documents including the query shorthand after a block-less definition: R6), every indentation
+    setting over {space, tab}, every flag combination with `no_location`.  Top-level descriptions, default values,
+    directives and every string content are preserved (block strings through `BlockLay` / `DescLay`). -/
+theorem print_parse_document_modulo_members (fl : Flags) (hnl : fl.noLocation = true) (c : Cfg)
+    (hdesc : c.includeDescriptions = true) (hind : IndentOK c) (d : Document)
+    (hok : ∀ x ∈ d.definitions, okDefinition c.indent x) (hn : noLocDocument d = true) (hw : wfDocument fl d = true) :
+    ∃ toks, lexAll (printDocument c d) = .ok toks ∧ parseDocument fl toks = .ok (stripMemberDescriptions d) := by
+  obtain ⟨toks, h1, h2⟩ := print_tokens_document c hdesc hind d hok
+  refine ⟨_, h1, ?_⟩
+  apply C01.parse_complete_document fl _ _ (by rw [wfDocument_strip]; exact hw)
+  exact matches_document fl hnl c d (fun x hx => gfacts c hdesc hind x (hok x hx)) hn sofTok (eofTok _) cls_sof (cls_eof _) toks h2
+
+/-- `print_stable_document` (all documents): printing the re-parsed tree reproduces the same text — the loss of member
+    descriptions (R4) is invisible to the printer (`print_ignores_member_descriptions`). -/
+theorem print_stable_document (fl : Flags) (hnl : fl.noLocation = true) (c : Cfg)
+    (hdesc : c.includeDescriptions = true) (hind : IndentOK c) (d : Document)
+    (hok : ∀ x ∈ d.definitions, okDefinition c.indent x) (hn : noLocDocument d = true) (hw : wfDocument fl d = true) :
+    ∃ toks d', lexAll (printDocument c d) = .ok toks ∧ parseDocument fl toks = .ok d' ∧
+      printDocument c d' = printDocument c d := by
+  obtain ⟨toks, h1, h2⟩ := print_parse_document_modulo_members fl hnl c hdesc hind d hok hn hw
+  exact ⟨toks, _, h1, h2, print_ignores_member_descriptions c d⟩
+
+/-- a document without member descriptions round-trips EXACTLY -/
+theorem print_parse_document_exact (fl : Flags) (hnl : fl.noLocation = true) (c : Cfg)
+    (hdesc : c.includeDescriptions = true) (hind : IndentOK c) (d : Document)
+    (hok : ∀ x ∈ d.definitions, okDefinition c.indent x) (hn : noLocDocument d = true) (hw : wfDocument fl d = true)
+    (hm : stripMemberDescriptions d = d) :
+    ∃ toks, lexAll (printDocument c d) = .ok toks ∧ parseDocument fl toks = .ok d := by
+  have := print_parse_document_modulo_members fl hnl c hdesc hind d hok hn hw
+  rwa [hm] at this
 
 /-- `print_parse_partial` — what is PROVED of `PrintParseModuloMembersStatement` / `PrintParseStatement`, for every
     indentation configuration over {space, tab} and every flag combination with `no_location`:
